@@ -13,7 +13,7 @@ def gen_prog(rng, i):
     valgen.DUPKEYS[0] = 0.2 if i % 3 == 0 else 0.0      # previous content "whatever it was": dict displays that repeat a key
     try:
         prog = proggen.gen_program(rng, rich=(i % 2 == 0), style="assert", nsites=rng.randint(1, 6), opts=opts,
-                                   layout={"per_test": rng.choice([1, 2, 3, 6])})
+                                   layout={"per_test": rng.choice([1, 2, 3, 6]), "raising_first": i % 4 == 1})
     finally:
         valgen.DUPKEYS[0] = 0.0
     prog["opts"] = opts
